@@ -67,9 +67,11 @@ theorem sameBits_of_vec_eq (n : Nat) (a b : PRow) (h : a.vec n = b.vec n) : Same
   · revert h2; cases a.z j <;> cases b.z j <;> simp [Graphiq.b2z]
 
 /-- a GF(2) basis of the subspace of stabilizers supported right of `k` lifts to a local basis of the same length -/
-theorem exists_localBasis_of_basis (t : Tab) (hv : t.Valid) (hr : t.StabReal) (k : Nat) (hk : k < t.n) (κ : Nat)
-    (b : Basis (Fin κ) (ZMod 2) ↥((STab.ofTab t).gspace ⊓ rightOf t.n k)) :
-    ∃ c : Nat → PRow, IsLocalBasis t (leftSites k) κ c := by
+theorem exists_localBasis_of_basis (t : Tab) (hv : t.Valid) (hr : t.StabReal) (rem : List Nat)
+    (hlt : ∀ q, q ∈ rem → q < t.n) (V : Submodule (ZMod 2) (PVec t.n))
+    (hV : ∀ v : PVec t.n, v ∈ V ↔ ∀ j : Fin t.n, j.val ∈ rem → v j = 0) (κ : Nat)
+    (b : Basis (Fin κ) (ZMod 2) ↥((STab.ofTab t).gspace ⊓ V)) :
+    ∃ c : Nat → PRow, IsLocalBasis t rem κ c := by
   classical
   have ga : (STab.ofTab t).Good := ofTab_good t hv
   -- lift each basis vector to a group element
@@ -100,33 +102,32 @@ theorem exists_localBasis_of_basis (t : Tab) (hv : t.Valid) (hr : t.StabReal) (k
   refine ⟨c, ⟨fun i hi => (spn_of_grp t hr _).mpr (hcmem i hi), ?_, ?_, ?_⟩⟩
   · -- identity on the left part
     intro i hi q hq
-    have hqk : q ≤ k := (mem_leftSites k q).mp hq
-    have hqn : q < t.n := by omega
+    have hqn : q < t.n := hlt q hq
     apply vec_bits_zero t.n (c i) q hqn
     rw [hc i hi]
-    exact (b ⟨i, hi⟩).property.2 ⟨q, hqn⟩ hqk
+    exact (hV _).mp (b ⟨i, hi⟩).property.2 ⟨q, hqn⟩ hq
   · -- independence
     intro S hS i hi
     have h0 := vec_eq_zero_of_eqOn_one t.n _ hS
     rw [hvec S] at h0
-    have h1 : (∑ i : Fin κ, Graphiq.b2z (S i.val) • b i : ↥((STab.ofTab t).gspace ⊓ rightOf t.n k)) = 0 :=
+    have h1 : (∑ i : Fin κ, Graphiq.b2z (S i.val) • b i : ↥((STab.ofTab t).gspace ⊓ V)) = 0 :=
       Subtype.ext h0
     have := (Fintype.linearIndependent_iff.mp b.linearIndependent) (fun i => Graphiq.b2z (S i.val)) h1 ⟨i, hi⟩
     exact (Graphiq.b2z_eq_zero _).1 this
   · -- spanning
     intro g hg hid
     have hgA : (STab.ofTab t).Spn g := (spn_of_grp t hr g).mp hg
-    have hgW : g.vec t.n ∈ (STab.ofTab t).gspace ⊓ rightOf t.n k := by
-      refine ⟨inSpan_vec_mem t.n (STab.ofTab t).row g hgA, ?_⟩
+    have hgW : g.vec t.n ∈ (STab.ofTab t).gspace ⊓ V := by
+      refine ⟨inSpan_vec_mem t.n (STab.ofTab t).row g hgA, (hV _).mpr ?_⟩
       intro j hj
-      have := hid j.val ((mem_leftSites k j.val).mpr hj)
+      have := hid j.val hj
       show (Graphiq.b2z (g.x j), Graphiq.b2z (g.z j)) = 0
       rw [this.1, this.2]; rfl
     obtain ⟨S, hS⟩ : ∃ S : Nat → Bool, ∀ i : Fin κ, Graphiq.b2z (S i.val) = b.repr ⟨g.vec t.n, hgW⟩ i :=
       ⟨fun i => if h : i < κ then decide (b.repr ⟨g.vec t.n, hgW⟩ ⟨i, h⟩ = 1) else false, fun i => by
         simp only [dif_pos i.isLt]
         exact b2z_decide_eq_one _⟩
-    have hsum : (∑ i : Fin κ, Graphiq.b2z (S i.val) • b i : ↥((STab.ofTab t).gspace ⊓ rightOf t.n k))
+    have hsum : (∑ i : Fin κ, Graphiq.b2z (S i.val) • b i : ↥((STab.ofTab t).gspace ⊓ V))
         = ⟨g.vec t.n, hgW⟩ := by
       rw [Finset.sum_congr rfl (fun i _ => by rw [hS i])]
       exact b.sum_repr _
@@ -150,7 +151,42 @@ theorem exists_localBasis_of_basis (t : Tab) (hv : t.Valid) (hr : t.StabReal) (k
 theorem exists_localBasis_cut (t : Tab) (hv : t.Valid) (hr : t.StabReal) (k : Nat) (hk : k < t.n) :
     ∃ c : Nat → PRow,
       IsLocalBasis t (leftSites k) (finrank (ZMod 2) ↥((STab.ofTab t).gspace ⊓ rightOf t.n k)) c :=
-  exists_localBasis_of_basis t hv hr k hk _ (Module.finBasis (ZMod 2) ↥((STab.ofTab t).gspace ⊓ rightOf t.n k))
+  exists_localBasis_of_basis t hv hr (leftSites k) (fun q hq => by have := (mem_leftSites k q).mp hq; omega)
+    (rightOf t.n k)
+    (fun v => by
+      rw [mem_rightOf]
+      exact ⟨fun h j hj => h j ((mem_leftSites k j.val).mp hj), fun h j hj => h j ((mem_leftSites k j.val).mpr hj)⟩)
+    _ (Module.finBasis (ZMod 2) ↥((STab.ofTab t).gspace ⊓ rightOf t.n k))
+
+/-- vectors that are trivial on the sites of `rem` -/
+def idOnSub (n : Nat) (rem : List Nat) : Submodule (ZMod 2) (PVec n) where
+  carrier := {v | ∀ j : Fin n, j.val ∈ rem → v j = 0}
+  add_mem' := by
+    intro a b ha hb j hj
+    show a j + b j = 0
+    rw [ha j hj, hb j hj, add_zero]
+  zero_mem' := by intro j _; rfl
+  smul_mem' := by
+    intro c a ha j hj
+    show c • a j = 0
+    rw [ha j hj, smul_zero]
+
+/-- **every reduced state of a stabilizer state has a flat spectrum** (unconditional): for every valid tableau and every
+    (strictly descending) list of traced-out sites there are `κ` and an orthogonal projector `Π` with
+    `Tr_rem ρ = (2^κ/2^m) · Π`; so `σ² = (2^κ/2^m) σ` and the purity is `2^κ/2^m`, with
+    `κ = dim_GF(2) (G ∩ {trivial on rem})` -/
+theorem reduced_state_flat (m : Nat) (t : Tab) (rem : List Nat) (hn : t.n = m + rem.length) (hv : t.Valid)
+    (hr : t.StabReal) (hpw : rem.Pairwise (· > ·)) (hlt : ∀ q, q ∈ rem → q < t.n) :
+    ∃ Pr : Matrix (Bits m) (Bits m) ℂ, Pr * Pr = Pr ∧ Prᴴ = Pr ∧
+      ptraceList rem (rho (m + rem.length) (STab.ofTab t))
+        = ((2 : ℂ) ^ (finrank (ZMod 2) ↥((STab.ofTab t).gspace ⊓ idOnSub t.n rem)) / 2 ^ m) • Pr ∧
+      Matrix.trace (ptraceList rem (rho (m + rem.length) (STab.ofTab t))
+          * ptraceList rem (rho (m + rem.length) (STab.ofTab t)))
+        = (2 : ℂ) ^ (finrank (ZMod 2) ↥((STab.ofTab t).gspace ⊓ idOnSub t.n rem)) / 2 ^ m := by
+  obtain ⟨c, hb⟩ := exists_localBasis_of_basis t hv hr rem hlt (idOnSub t.n rem) (fun _ => Iff.rfl) _
+    (Module.finBasis (ZMod 2) ↥((STab.ofTab t).gspace ⊓ idOnSub t.n rem))
+  obtain ⟨h1, h2, h3, _, h5⟩ := reduced_state_eq_proj m t rem hn hv hr hpw hlt _ c hb
+  exact ⟨_, h2, h3, h1, h5⟩
 
 /-- **The height-function dimension is an entanglement entropy.**  Valid tableau on `n` qubits, cut after site `k < n`,
     `m = n − (k+1)` qubits on the right, `κ = dim_GF(2) (G ∩ supported right of k)`.  The reduced state of the right part
